@@ -208,3 +208,19 @@ Record hreq := mk_hreq { hq_op : nat; hq_creds : list (nat * nat); hq_bind : boo
 Definition history (oracle_for : list (nat * nat) -> oracle) (ops : list (list alt)) (az : authorizer)
            (calls : list hreq) : list (list event) :=
   map (fun c => secure_handler (oracle_for (hq_creds c)) (nth (hq_op c) ops []) az (hq_bind c)) calls.
+
+(* ---- the property for a request whose Accept header may admit none of the offers (fmt_ok = false). Nothing changes
+   for a request that is refused: the rejecting scheme's error, 401 or the authorizer's error, whatever else is right
+   or wrong with the request. Only a request that is justified in being let through may be answered 406 instead
+   (before binding, without the handler). ---- *)
+Definition sec_ok_fmt (out : oracle) (alts : list alt) (az : authorizer) (bind_ok fmt_ok strict : bool) (tr : list event) : bool :=
+  if fmt_ok then sec_ok out alts az bind_ok strict tr
+  else
+    match responded tr with
+    | Some (c, _) =>
+      if Nat.eqb c 406 && negb (existsb is_bind tr) && negb (existsb is_handle tr) && negb (existsb is_panic tr) &&
+         (is_nil alts || admissible out alts az tr)
+      then true
+      else sec_ok out alts az bind_ok strict tr
+    | None => sec_ok out alts az bind_ok strict tr
+    end.
